@@ -121,7 +121,7 @@ pub struct Thunk {
 }
 
 #[derive(Clone, Debug, PartialEq)]
-pub struct Env(Option<Rc<EnvNode>>);
+pub struct Env(pub Option<Rc<EnvNode>>);
 #[derive(Debug, PartialEq)]
 pub struct EnvNode {
     vars: Vec<(String, Thunk)>,
